@@ -120,6 +120,9 @@ func c13Scenarios(tier string) []e1lib.Scenario {
 			Nontrivial: func(outcomes, execs, states int) bool { return true }})
 	}
 	maxOps := 3
+	if tier == "thorough" {
+		maxOps = 4
+	}
 	for ops := 1; ops <= maxOps; ops++ {
 		for cp := 0; cp <= 2; cp++ {
 			k := 2*ops + cp + 3
@@ -170,6 +173,6 @@ func c13Scenarios(tier string) []e1lib.Scenario {
 
 func propC13() drv.Property {
 	return table("C13",
-		"one case = Throttling x ops 1..3 x interval 4 ticks x input capacity c 0..2 x k = 2*ops+c+3 elements (more than the window bound) x producer gap {0, I/2, I, 3I} x consumer schedule (constant pace {0, I/2, I}; or take j elements, stay idle for G in {I/2, I, I+1, 2I, 10I}, then burst, for every j; thorough: two idle periods) x cancel at grid points; virtual clock, every interleaving at equal instants explored; the largest window count observed per (ops, c) is reported next to the bound 2*ops+1+c (maxima) so that a vacuous pass is visible",
+		"one case = Throttling x ops 1..3 (4 in thorough) x interval 4 ticks x input capacity c 0..2 x k = 2*ops+c+3 elements (more than the window bound) x producer gap {0, I/2, I, 3I} x consumer schedule (constant pace {0, I/2, I}; or take j elements, stay idle for G in {I/2, I, I+1, 2I, 10I}, then burst, for every j; thorough: two idle periods) x cancel at grid points; virtual clock, every interleaving at equal instants explored; the largest window count observed per (ops, c) is reported next to the bound 2*ops+1+c (maxima) so that a vacuous pass is visible",
 		append(commonAssumptions, "time is the virtual clock of rt (advances only when no thread can run); the latency upper bound is a statement about that ideal clock"), c13Scenarios)
 }
